@@ -49,7 +49,9 @@ main (void)
 #if defined (NORM)
 	psf->norm_float = NORM ; psf->norm_double = NORM ; psf->add_clipping = CLIP ;
 #else
-	{	int nd_normf = nondet_int (), nd_normd = nondet_int (), nd_clip = nondet_int () ;
+	{	int nd_normf = nondet_int () ;
+		int nd_normd = nondet_int () ;
+		int nd_clip = nondet_int () ;
 		VASSUME (nd_normf == SF_TRUE || nd_normf == SF_FALSE) ;
 		VASSUME (nd_normd == SF_TRUE || nd_normd == SF_FALSE) ;
 		VASSUME (nd_clip == SF_TRUE || nd_clip == SF_FALSE) ;
@@ -69,10 +71,9 @@ main (void)
 #if defined (SEL_RD)
 	{	unsigned char nd_b [COUNT * BW] ;
 		short os [COUNT] ; int oi [COUNT] ; float of [COUNT] ; double od [COUNT] ;
+		ND_FILL (nd_b, COUNT * BW, uchar) ;
 		for (k = 0 ; k < COUNT * BW ; k++)
-		{	nd_b [k] = nondet_uchar () ;
 			mf [0].data [k] = nd_b [k] ;
-			} ;
 		reset_file (COUNT * BW) ;
 		r = RD (2s) (psf, os, COUNT) ;
 		VASSERT (r == COUNT, "read_short count") ;
@@ -106,7 +107,8 @@ main (void)
 	{	short nd_s [COUNT] ; int nd_i [COUNT] ;
 		unsigned char exp [4] ;
 		int j ;
-		for (k = 0 ; k < COUNT ; k++) { nd_s [k] = nondet_short () ; nd_i [k] = nondet_int () ; } ;
+		ND_FILL (nd_s, COUNT, short) ;
+		ND_FILL (nd_i, COUNT, int) ;
 		reset_file (0) ;
 		r = WR (pcm_write_s2) (psf, nd_s, COUNT) ;
 		VASSERT (r == COUNT, "write_short count") ;
@@ -132,12 +134,12 @@ main (void)
 		typedef float FT ;
 		FT nd_x [COUNT] ;
 		const int norm = psf->norm_float ;
-		for (k = 0 ; k < COUNT ; k++) nd_x [k] = nondet_float () ;
+		ND_FILL (nd_x, COUNT, float) ;
 #else
 		typedef double FT ;
 		FT nd_x [COUNT] ;
 		const int norm = psf->norm_double ;
-		for (k = 0 ; k < COUNT ; k++) nd_x [k] = nondet_double () ;
+		ND_FILL (nd_x, COUNT, double) ;
 #endif
 		const FT C = norm ? (FT) (1.0 * ref_imax (BW)) : (FT) 1.0 ;		/* documented scale 2^(w-1) - 1 */
 		const FT S = norm ? (FT) (-1.0 * ref_imin (BW)) : (FT) 1.0 ;		/* 2^(w-1) (clip kernels) */
